@@ -12,6 +12,8 @@ const (
 
 func SettingLines(comment string) (lines []string) {
 	scanner := bufio.NewScanner(strings.NewReader(comment))
+	// a doc comment line may be longer than bufio.MaxScanTokenSize
+	scanner.Buffer(nil, len(comment)+1)
 	for scanner.Scan() {
 		line := strings.TrimSpace(scanner.Text())
 		if strings.HasPrefix(line, Prefix+Delimiter) {
